@@ -6,4 +6,7 @@ namespace PGA.Units
 
 theorem checkAllUnits_live : checkAllUnits liveCfg = true := by decide +kernel
 
+/-- the same for the units the reference does not know, against what their definitions mean (`PGA/Spec/SIExt.lean`) -/
+theorem checkNewUnits_live : checkNewUnits liveCfg = true := by decide +kernel
+
 end PGA.Units
